@@ -120,6 +120,8 @@ def run_tlc(module, cfg, workdir, workers=1, env=None, timeout=600, extra=None, 
     os.makedirs(workdir, exist_ok=True)
     md = os.path.join(workdir, "md")
     shutil.rmtree(md, ignore_errors=True)
+    # shared machines: VERIF_WORKERS caps the TLC worker threads of every run (VERIF_PAR caps parallel TLC processes)
+    workers = max(1, min(workers, int(os.environ.get("VERIF_WORKERS", "64"))))
     jopts = "-Xss1g -Xmx%s" % heap
     if deque:
         jopts += " -Dtlc2.tool.queue.IStateQueue=StateDeque"
